@@ -152,7 +152,9 @@ to the handler on the state restored from the checkpoint (and the source replays
 the statement with the exact excluded condition: an operator whose batcher is empty when it is redeployed.
 -/
 
-/-- `HandleDeploy` leaves the event batcher exactly as it was; in particular an operator that had nothing queued (every
+/-- (Since repair D69 events arriving AFTER the redeploy from a runner that is no longer in the assembly are refused —
+`foreign_sender_refused`; what remains of D45 is the batch already queued inside the operator, and events of a
+surviving runner id's old loop, D39.) `HandleDeploy` leaves the event batcher exactly as it was; in particular an operator that had nothing queued (every
 new worker, and a surviving operator whose batch had been flushed) starts the deployment with nothing queued.
 Excluded: a surviving operator with queued events at the moment of the redeploy (D45). -/
 theorem no_stale_effects_partial {s : St} (_hr : ReachableAll s) (h : s.status = .starting) :
@@ -176,19 +178,37 @@ theorem stale_batch_counterexample :
     (step (run (init 2 5 0 2) staleBatchTrace).1 (.ev 0 2 8)).2 = .processed [(7, 1), (8, 2)] 2 :=
   ⟨⟨2, 5, 0, 2, staleBatchTrace, by decide, rfl⟩, by decide, by decide, by decide, by decide⟩
 
-/-- "Surviving workers keep processing", operator side: right after a successful (re)deploy no operator of the assembly
-turns an event away or parks its sender — whatever was being aligned before is gone. (Source runners are not modelled:
-D39, D48.) -/
+/-- "Surviving workers keep processing", operator side: right after a successful (re)deploy every operator of the
+assembly takes the events of every source runner of the assembly — it is ready, does not refuse the sender and does
+not park it (whatever was being aligned before is gone). (Source runners: RunnerProc, D39, D48.) -/
 theorem operators_accept_events_after_deploy {s : St} (hr : ReachableAll s) (h : s.status = .starting)
-    (i sr tag : Nat) (hi : i ∈ (step s .deployOk).1.asmOps) :
-    (step (step s .deployOk).1 (.ev i sr tag)).2 ≠ .barBlocked ∧
-    (step (step s .deployOk).1 (.ev i sr tag)).2 ≠ .barNotReady := by
-  obtain ⟨hin, hdep, _⟩ := (no_stale_records_after_deploy hr h).2 i hi
-  generalize (step s .deployOk).1 = s' at hin hdep
-  show (event s' i sr tag).2 ≠ .barBlocked ∧ (event s' i sr tag).2 ≠ .barNotReady
+    (i sr tag : Nat) (hi : i ∈ (step s .deployOk).1.asmOps) (hsr : sr ∈ (step s .deployOk).1.asmSrs) :
+    (step (step s .deployOk).1 (.ev i sr tag)).2 = .evQueued ∨
+    ∃ b e, (step (step s .deployOk).1 (.ev i sr tag)).2 = .processed b e := by
+  obtain ⟨hin, hdep, hsrc⟩ := (no_stale_records_after_deploy hr h).2 i hi
+  generalize (step s .deployOk).1 = s' at hin hdep hsrc hsr
+  show (event s' i sr tag).2 = .evQueued ∨ ∃ b e, (event s' i sr tag).2 = .processed b e
+  have hc : (s'.procs i).srcs.contains sr = true := by rw [hsrc]; simpa using hsr
   unfold event
-  simp only [hdep, hin, parked, Bool.not_true, Bool.false_eq_true, if_false]
-  split <;> simp
+  simp only [hdep, hin, hc, parked, Bool.not_true, Bool.false_eq_true, if_false]
+  split
+  · exact Or.inr ⟨_, _, rfl⟩
+  · exact Or.inl rfl
+
+/-- Events and barriers of a sender that is not a source runner of the operator's current deployment — a runner of a
+previous assembly that is still running — are refused and change nothing (repair D69). This narrows D45: of the
+previous deployment only what was ALREADY inside a surviving operator at its redeploy (its queued event batch, a call
+past alignment) survives; nothing a replaced runner's old process sends afterwards gets in. -/
+theorem foreign_sender_refused {s : St} (_hr : ReachableAll s) (i sr x : Nat) (hd : (s.procs i).deployed = true)
+    (hsr : sr ∉ (s.procs i).srcs) :
+    step s (.ev i sr x) = (s, .barRefused) ∧ step s (.bar i sr x) = (s, .barRefused) := by
+  constructor
+  · show event s i sr x = _
+    unfold event; simp [hd]
+    intro hh; exact absurd hh hsr
+  · show barrier s i sr x = _
+    unfold barrier; simp [hd]
+    intro hh; exact absurd hh hsr
 
 /-- A pending snapshot waits for the members of the job's current assembly. Excluded (D57): schedules with a ticker
 callback or savepoint request run in pieces (`tick_interleaving_counterexample`: pending for [0,1] on assembly [0,4]).
